@@ -24,6 +24,7 @@ Obligations, with old = fs0[target] (possibly absent), arbitrary pre-existing st
                     an exception propagates
 """
 import contextlib
+import os.path as _os_path
 import pathlib
 import textwrap
 
@@ -86,6 +87,11 @@ class GhostFS:
         self.old = self.fs.get(self.target)
 
     # -- helpers --
+    def leftovers(self):
+        """files other than the target that exist because of THIS call (created or rewritten by it): staging files it left behind.  A stale staging
+        file of a killed earlier writer that this call never touched is not its leftover"""
+        return sorted(p for p, f in self.fs.items() if p != self.target and f.origin != "stale-staging")
+
     def _tick(self):
         self.clock += 1
         return self.clock
@@ -146,6 +152,85 @@ class GhostFS:
             raise FaultOS("remove failed")
         del self.fs[p]
         self._after("remove")
+
+
+    def touch(self, p, exist_ok=True):
+        """pathlib.Path.touch / os.utime: creates an EMPTY file when none exists, otherwise only bumps the modified time - the content stays"""
+        p = str(p)
+        if self.outcome(2, "touch") == 1:
+            self._after("touch-raises")
+            raise FaultOS("touch failed")
+        f = self.fs.get(p)
+        if f is None:
+            self.fs[p] = File((), True, self._tick(), "this-call")
+        elif not exist_ok:
+            self._after("touch-exists")
+            raise FileExistsError(p)
+        else:
+            f.mtime = self._tick()
+        self._after("touch")
+
+
+class GhostPath(pathlib.PosixPath):
+    """pathlib.Path whose file-system methods act on the ghost file system of the unit that is running (pure path arithmetic is pathlib's own)"""
+    _gfs = None
+
+    def _g(self):
+        g = GhostPath._gfs
+        if g is None:
+            raise RuntimeError("GhostPath used outside a file-store unit")
+        return g
+
+    def touch(self, mode=0o666, exist_ok=True):
+        return self._g().touch(self, exist_ok=exist_ok)
+
+    def exists(self, **kw):
+        return str(self) in self._g().fs
+
+    def is_file(self):
+        return str(self) in self._g().fs
+
+    def unlink(self, missing_ok=False):
+        try:
+            return self._g().remove(self)
+        except FileNotFoundError:
+            if not missing_ok:
+                raise
+
+    def open(self, mode="r", **kw):
+        return self._g().open(self, mode, **kw)
+
+    def replace(self, target):
+        self._g().replace(self, target)
+        return type(self)(target)
+
+    rename = replace
+
+    def write_text(self, data, **kw):
+        with self._g().open(self, "w", **kw) as h:
+            h.write(data)
+
+    def write_bytes(self, data):
+        with self._g().open(self, "wb") as h:
+            h.write(data)
+
+    def stat(self, **kw):
+        self._g().ctx.unsupported("Path.stat in a write unit")
+
+    def read_text(self, **kw):
+        self._g().ctx.unsupported("Path.read_text in a write unit")
+
+    def read_bytes(self):
+        self._g().ctx.unsupported("Path.read_bytes in a write unit")
+
+
+class _GhostPathlib:
+    """stands for the pathlib module in the extracted code: Path is GhostPath, everything else is pathlib's"""
+    Path = GhostPath
+    PosixPath = GhostPath
+
+    def __getattr__(self, k):
+        return getattr(pathlib, k)
 
 
 SHORT_COUNT = object()   # what a raw write returns when it wrote less than asked (stands for an int < len(data))
@@ -222,9 +307,28 @@ def dump_stub(gfs, name):
 
 
 def fs_env(gfs):
-    class _os:
+    class _OS:
+        """the os module of the extracted code: file operations act on the ghost file system, pure functions are os's own"""
         replace = staticmethod(gfs.replace)
+        rename = staticmethod(gfs.replace)
         remove = staticmethod(gfs.remove)
+        unlink = staticmethod(gfs.remove)
+        PURE = ("getpid", "getppid", "fspath", "fsencode", "fsdecode", "sep", "linesep", "extsep", "curdir", "pardir", "name", "urandom", "PathLike", "getcwd")
+
+        class path:
+            exists = staticmethod(lambda p: str(p) in gfs.fs)
+            isfile = staticmethod(lambda p: str(p) in gfs.fs)
+            lexists = staticmethod(lambda p: str(p) in gfs.fs)
+
+        def __getattr__(self, k):
+            if k in self.PURE:
+                import os
+                return getattr(os, k)
+            raise AttributeError(k)
+
+    for _k in ("join", "dirname", "basename", "split", "splitext", "normpath", "abspath", "isabs"):
+        setattr(_OS.path, _k, staticmethod(getattr(_os_path, _k)))
+    _os = _OS()
 
     class _json:
         dump = staticmethod(dump_stub(gfs, "json.dump"))
@@ -232,11 +336,12 @@ def fs_env(gfs):
     class _pickle:
         dump = staticmethod(dump_stub(gfs, "pickle.dump"))
 
+    GhostPath._gfs = gfs
     env = base_env(REL)
     env.update({
         "open": gfs.open,
         "os": _os,
-        "pathlib": pathlib,
+        "pathlib": _GhostPathlib(),
         "contextmanager": contextlib.contextmanager,
         "json": _json,
         "pickle": _pickle,
@@ -254,7 +359,7 @@ def _final_checks(ctx, gfs, raised, expect_chunks=None, prefix=""):
         if expect_chunks is not None:
             ctx.check(prefix + "normal-exit:content-is-exactly-the-value", bool(cur is not None and cur.chunks == expect_chunks),
                       info=f"{cur and cur.chunks} vs {expect_chunks}")
-        ctx.check(prefix + "normal-exit:no-staging-file", bool(gfs.staging not in gfs.fs))
+        ctx.check(prefix + "normal-exit:no-staging-file", bool(not gfs.leftovers()), info=str(gfs.leftovers()))
         ctx.check(prefix + "normal-exit:modified-time-increased", bool(cur is not None and (gfs.old is None or cur.mtime > gfs.old.mtime)),
                   props=["C11", "C12"])
     else:
@@ -262,13 +367,13 @@ def _final_checks(ctx, gfs, raised, expect_chunks=None, prefix=""):
         ctx.check(prefix + "exceptional-exit:target-unchanged", bool(same))
         # the only excuse for a staging file after a failed write is that removing it failed too
         remove_failed = any(lab == "os.remove=1" for lab in ctx.labels())
-        ctx.check(prefix + "exceptional-exit:no-staging-file-left", bool(gfs.staging not in gfs.fs or remove_failed),
-                  info=f"raised {type(raised).__name__}: {raised}")
+        ctx.check(prefix + "exceptional-exit:no-staging-file-left", bool(not gfs.leftovers() or remove_failed),
+                  info=f"raised {type(raised).__name__}: {raised}; left behind: {gfs.leftovers()}")
 
 
 def _setup(ctx):
     pk = ctx.choose(2, "path-kind")
-    target = "/d/target.json" if pk == 0 else pathlib.Path("/d/target.json")
+    target = "/d/target.json" if pk == 0 else GhostPath("/d/target.json")
     with_old = ctx.choose(2, "old-exists") == 0
     stale = ctx.choose(2, "stale-staging") == 1
     return target, GhostFS(ctx, target, with_old, stale)
@@ -289,7 +394,9 @@ def staged_write_path_unit(ctx):
     raised = None
     try:
         with env["staged_write_path"](target) as sp:
-            ctx.check("yields-staging-path", bool(str(sp) == gfs.staging and type(sp) is type(target)))
+            # whatever the staging file is called: not the target, next to it (the rename is atomic within one directory, T8), same kind of path
+            ctx.check("yields-staging-path", bool(str(sp) != gfs.target and _os_path.dirname(str(sp)) == _os_path.dirname(gfs.target) and type(sp) is type(target)),
+                      info=f"{sp!r}")
             b = ctx.choose(4, "block")
             if b == 3:
                 raise Interrupt()
@@ -313,6 +420,33 @@ def staged_write_path_unit(ctx):
     return "raises" if raised else "returns"
 
 
+@unit("filestore.staging-names-are-private", props=["C11", "C12"], functions=[(REL, "staged_write_path")],
+      assumptions=["sibling targets in one directory: same stem with different extensions, no extension, dotted stems; str and pathlib paths"],
+      min_obligations=2, kind="concrete-parametric")
+def staging_private_unit(ctx):
+    """whatever the staging file is called, the name is private to its target: two writers of DIFFERENT targets never stage through the same file
+    (else one writer truncates or renames the other's half-written file: a mixed target), and nobody stages into somebody's target"""
+    pk = ctx.choose(2, "path-kind")
+    mk = str if pk == 0 else GhostPath
+    names = ["/d/result.json", "/d/result.pkl", "/d/result.txt", "/d/result", "/d/result.tar.gz", "/d/result.tar", "/d/.result", "/d/result.json.bak"]
+    gfs = GhostFS(ctx, names[0], False, False, die=False)
+    gfs.outcome = lambda n, label: 0
+    gfs.phi = lambda where: None
+    env = fs_env(gfs)
+    staged = {}
+    for n in names:
+        try:
+            with env["staged_write_path"](mk(n)) as sp:
+                staged[n] = str(sp)
+                raise BlockError()
+        except BlockError:
+            pass
+    vals = list(staged.values())
+    ctx.check("different-targets-get-different-staging-files", bool(len(set(vals)) == len(names)), info=str(staged))
+    ctx.check("no-staging-file-is-some-store's-target", bool(not (set(vals) & set(names))), info=str(staged))
+    return "ok"
+
+
 @unit(
     "filestore.staged_write",
     props=["C11"],
@@ -327,7 +461,8 @@ def staged_write_unit(ctx):
     mode = ("w", "wb")[ctx.choose(2, "mode")]
     try:
         with env["staged_write"](target, mode) as f:
-            ctx.check("opens-staging-path-not-target", bool(gfs.open_log and gfs.open_log[-1][0] == gfs.staging))
+            ctx.check("opens-staging-path-not-target", bool(gfs.open_log and gfs.open_log[-1][0] != gfs.target
+                                                              and _os_path.dirname(gfs.open_log[-1][0]) == _os_path.dirname(gfs.target)))
             b = ctx.choose(3, "block")
             f.write("payload")
             if b == 1:
